@@ -28,6 +28,31 @@ type vhSvc struct {
 	attempts int
 	okAt     int    // attempt number that succeeded (0 = none yet)
 	outcomes []bool // outcome of attempt k, drawn up front (the push goroutines run concurrently)
+	failText string // text of the INSERT error
+}
+
+// vhResp records what the handler writes to the client.
+type vhResp struct {
+	status int
+	hdr    http.Header
+}
+
+func (w *vhResp) Header() http.Header {
+	if w.hdr == nil {
+		w.hdr = http.Header{}
+	}
+	return w.hdr
+}
+func (w *vhResp) Write(b []byte) (int, error) {
+	if w.status == 0 {
+		w.status = 200
+	}
+	return len(b), nil
+}
+func (w *vhResp) WriteHeader(code int) {
+	if w.status == 0 {
+		w.status = code
+	}
 }
 
 func (s *vhSvc) Request(req helpers.SizeGetter, mode int) *promise.Promise[uint32] {
@@ -38,7 +63,7 @@ func (s *vhSvc) Request(req helpers.SizeGetter, mode int) *promise.Promise[uint3
 		}
 		return promise.Fulfilled[uint32](nil, 0)
 	}
-	return promise.Fulfilled[uint32](errors.New("insert failed"), 0)
+	return promise.Fulfilled[uint32](errors.New(s.failText), 0)
 }
 func (s *vhSvc) GetNodeName() string { return "n" }
 
@@ -63,7 +88,10 @@ func VH_C01_handler() {
 	config.Cloki.Setting.SYSTEM_SETTINGS.RetryAttempts = attempts
 	config.Cloki.Setting.SYSTEM_SETTINGS.RetryTimeoutS = 0
 	FPCache = vhCache{}
-	ts, spl := &vhSvc{name: "series"}, &vhSvc{name: "samples"}
+	// what the database says when an INSERT fails (the text decides nothing about the answer's class)
+	failText := []string{"insert failed", "write tcp 10.0.0.1:1->10.0.0.2:9000: write: connection reset by peer",
+		"connection reset by peer"}[vrt.Choice("insert-error-text", 3)]
+	ts, spl := &vhSvc{name: "series", failText: failText}, &vhSvc{name: "samples", failText: failText}
 	for k := 0; k < 3; k++ {
 		ts.outcomes = append(ts.outcomes, vrt.Bool("series-insert-succeeds"))
 		spl.outcomes = append(spl.outcomes, vrt.Bool("samples-insert-succeeds"))
@@ -98,6 +126,10 @@ func VH_C01_handler() {
 		vrt.Assert(spl.okAt > 0, "success-only-if-the-samples-part-was-inserted")
 	} else {
 		vrt.Assert(ts.okAt == 0 || spl.okAt == 0, "error-only-if-some-part-was-never-inserted")
+		// the status the client sees for that error (net/http answers 200 when the handler writes nothing)
+		w := &vhResp{}
+		ErrorHandler(w, r, err)
+		vrt.Assert(w.status >= 400, "failed-inserts-are-answered-with-an-error-status")
 	}
 	vrt.Assert(ts.attempts <= attempts && spl.attempts <= attempts, "no-more-attempts-than-configured")
 	_ = time.Second
